@@ -1,8 +1,132 @@
 import Req.Driver.Proto
+import Req.Client.Compress
+import Req.Client.CompressLegacy
+import Req.Client.CompressReader
 /-! Driver lanes of C14. -/
 namespace Req.Driver.L.C14
-open Req.Proto
+open Req.Proto Req.Compress
 
-def lanes : List (String × (List String → String)) := []
+def parseBool (s : String) : Option Bool :=
+  if s == "1" then some true else if s == "0" then some false else none
+
+def parseSite (s : String) : Option Site :=
+  if s == "h1" then some .h1 else if s == "h2" then some .h2 else if s == "h3" then some .h3 else none
+
+def pairs : List Bytes → Option Header
+  | [] => some []
+  | [_] => none
+  | k :: v :: rest => (pairs rest).map fun t => (k, v) :: t
+
+def unpairs (h : Header) : List Bytes := h.flatMap fun p => [p.1, p.2]
+
+/-- `c14select <ce>` → the reader `NewCompressReader` builds, and the EqualFold-gzip test. -/
+def laneSelect : List String → String
+  | [ce] =>
+    match decodeHex ce with
+    | some b =>
+      (match select b with | some a => a.name | none => "none") ++
+        " fold=" ++ (if isGzipFold b then "1" else "0")
+    | none => "bad-op"
+  | _ => "bad-op"
+
+def showBody (wire gz dfl br zs : String) : Option BodyKind → String
+  | none => "nil"
+  | some k => deliver wire (fun a => match a with
+      | .gzip => gz | .deflate => dfl | .br => br | .zstd => zs) k
+
+def showOut (ae : Option Bytes) (o : Out) (wire gz dfl br zs : String) : String :=
+  "ae=" ++ (match ae with | some v => encodeHex v | none => "none") ++
+  " hdr=" ++ encodeList (unpairs o.resp.header) ++
+  " n=" ++ toString o.resp.contentLength ++
+  " unc=" ++ (if o.resp.uncompressed then "1" else "0") ++
+  " body=" ++ showBody wire gz dfl br zs o.body
+
+/-- `c14x <site> <disableCompression> <auto> <method> <accept-encoding> <range> <hasBody>
+<header k,v,…> <ContentLength> <wire> <gzip> <deflate> <br> <zstd>`: the last five are opaque
+descriptions (digest:length:end) of the body as received and of its meaning under each codec,
+computed by the harness with the reference libraries; the model picks. -/
+def exchange (legacy : Bool) : List String → String
+  | [site, dc, auto, method, ae, range, hasBody, hdr, cl, wire, gz, dfl, br, zs] =>
+    match parseSite site, parseBool dc, parseBool auto, decodeHex method, decodeHex ae,
+        decodeHex range, parseBool hasBody, (decodeList hdr).bind pairs, decodeInt cl with
+    | some s, some dc, some auto, some m, some ae, some rg, some hb, some h, some n =>
+      let c : ReqCfg := ⟨dc, m, ae, rg⟩
+      let r : Resp := ⟨h, n, false⟩
+      let o := if legacy then Legacy.process s c auto hb r else process s c auto hb r
+      showOut (wireAcceptEncoding (addGzip s c) c) o wire gz dfl br zs
+    | _, _, _, _, _, _, _, _, _ => "bad-op"
+  | _ => "bad-op"
+
+/-! ### reader scripts -/
+
+def parseTerm (s : String) : Option Term :=
+  if s == "eof" then some .eof
+  else if s.startsWith "err" then (s.drop 3).toNat?.map Term.err
+  else none
+
+def showRes (r : Bytes × Option Term) : String :=
+  encodeHex r.1 ++ ":" ++ (match r.2 with | some t => t.show | none => "-")
+
+/-- Phase 1: read with the sizes in turn (cycling) until a read returns an error or `limit`
+reads were made. Returns state, data, end, reads made. -/
+def phase1 {S : Type} (read : S → Nat → S × Bytes × Option Term) (sizes : List Nat) :
+    Nat → Nat → S → Bytes → S × Bytes × Option Term
+  | 0, _, s, acc => (s, acc, none)
+  | fuel + 1, i, s, acc =>
+    let n := sizes.getD (i % sizes.length) 1
+    let r := read s n
+    match r.2.2 with
+    | some t => (r.1, acc ++ r.2.1, some t)
+    | none => phase1 read sizes fuel (i + 1) r.1 (acc ++ r.2.1)
+
+def phase2 {S : Type} (read : S → Nat → S × Bytes × Option Term) :
+    S → List Nat → List (Bytes × Option Term)
+  | _, [] => []
+  | s, n :: ns => let r := read s n; (r.2.1, r.2.2) :: phase2 read r.1 ns
+
+/-- `c14reader <lazy|lazykeep|h1gz> <open: ok|eof|errN> <out> <end> <closeAfter: -1|j> <sizes> <extra>`:
+read with `sizes` (cycling) until an error — or, if `closeAfter = j ≥ 0`, for at most `j`
+reads, then `Close` — then `extra` more reads. Answer: `data=<hex|prefix> t=<end|-> after=…`.
+When closing after j > 0 reads the amount read so far depends on how short the real reader's
+reads are, so only "a prefix of the expected output" is reported (and `t=*`). -/
+def laneReader : List String → String
+  | [kind, opn, out, term, closeAfter, sizes, extra] =>
+    match decodeHex out, parseTerm term, decodeInt closeAfter, decodeNatList sizes, decodeNatList extra with
+    | some out, some term, some ca, some sizes, some extra =>
+      if sizes.isEmpty then "bad-op" else
+      let openRes : Src → Except Term (Bytes × Term) := fun _ =>
+        if opn == "ok" then .ok (out, term)
+        else match parseTerm opn with
+          | some e => .error e
+          | none => .error (.err 99)
+      let C := bufferedCodec openRes
+      let src : Src := ⟨[], .eof⟩
+      let limit : Nat := if ca < 0 then out.length + 8 else ca.toNat
+      let render (data : Bytes) (t : Option Term) (after : List (Bytes × Option Term)) : String :=
+        "data=" ++ (if ca > 0 then (if data.isPrefixOf out then "prefix" else "notprefix")
+          else match t with
+            | some (.err _) => "partial"   -- how much is produced before an error depends on input chunking
+            | _ => encodeHex data) ++
+        " t=" ++ (if ca > 0 then "*" else match t with | some t => t.show | none => "-") ++
+        " after=" ++ (if after.isEmpty then "-" else ",".intercalate (after.map showRes))
+      if kind == "lazy" || kind == "lazykeep" then
+        let keep := kind == "lazykeep"
+        let p := phase1 (lazyRead C keep) sizes limit 0 (LazyState.init src) []
+        let st := if ca ≥ 0 then lazyClose p.1 else p.1
+        render p.2.1 p.2.2 (phase2 (lazyRead C keep) st extra)
+      else if kind == "h1gz" then
+        let p := phase1 (h1gzRead C) sizes limit 0 (H1GzState.init src) []
+        let st := if ca ≥ 0 then h1gzClose p.1 else p.1
+        render p.2.1 p.2.2 (phase2 (h1gzRead C) st extra)
+      else "bad-op"
+    | _, _, _, _, _ => "bad-op"
+  | _ => "bad-op"
+
+def lanes : List (String × (List String → String)) := [
+  ("c14select", laneSelect),
+  ("c14x", exchange false),
+  ("c14xlegacy", exchange true),
+  ("c14reader", laneReader)
+]
 
 end Req.Driver.L.C14
